@@ -220,7 +220,7 @@ def run_shard(spec):
         r = random.Random(2)
         cps += [r.randrange(0x110000) for _ in range(400)]
         for cp in cps:
-            for text in ('"\\u{%x}"' % cp, '"a\\u{%X}b"' % cp, "'\\u{%x}'" % cp, '"\\u{%06x}"' % cp):
+            for text in ('"\\u{%x}"' % cp, '"a\\u{%X}b"' % cp, "'\\u{%x}'" % cp, '"\\u{%06x}"' % cp, '"\\u{%07x}"' % cp, '"\\u{%08X}"' % cp, "'\\u{%012x}'" % cp):
                 h = compare_with_reference(res, text, 'unicode escape')
                 if h is not None:
                     res['nontrivial'].append(runner.case_id(text))
